@@ -575,7 +575,7 @@ static void case_c15(const drvargs_t *a,long id){
         }
         static const long Ms[]={0,1,5000,700};
         long M=Ms[rng_below(&r,4)]; if(ch>32 && M>700) M=700; long done=0, pk=0;
-        int sig= rng_chance(&r,0.5)?SIG_NOISE:SIG_BURSTS; uint64_t ss=rng_next(&r);
+        int sig= rng_chance(&r,0.4)?SIG_NOISE:(rng_chance(&r,0.5)?SIG_BURSTS:(rng_chance(&r,0.5)?SIG_OVER:SIG_ALT)); uint64_t ss=rng_next(&r);   /* incl. input hotter than full scale */
         while(done<M){ long n=(long)rng_range(&r,1,2048); if(n>M-done) n=M-done; float **b=vorbis_analysis_buffer(&vd,(int)n);
           for(int c=0;c<ch;c++) for(long i=0;i<n;i++) b[c][i]=sig_sample(sig,ss,c,done+i,rate,M);
           vorbis_analysis_wrote(&vd,(int)n); done+=n;
@@ -623,7 +623,8 @@ static void case_c16(const drvargs_t *a,long id){
   int ncls=(int)(id%6); int n;
   n= ncls==0?0: ncls==1?1: ncls==2?(int)rng_range(&r,2,12): ncls==3?(int)rng_range(&r,12,200): ncls==4?(int)rng_range(&r,2,40):(int)rng_range(&r,200,a->thorough?5000:1500);
   com_t *cm=calloc(n+1,sizeof *cm);
-  static const char *tags[]={"TITLE","title","Title","ARTIST","artist","TIT","TITLE2","I","i","caf\xe9","CAF\xc9","\xfd","\xdd","","=","A=B","x","X","album","ALBUM ","tItLe","T\xc4G","t\xe4g"};
+  static const char *tags[]={"TITLE","title","Title","ARTIST","artist","TIT","TITLE2","I","i","caf\xe9","CAF\xc9","\xfd","\xdd","","=","A=B","x","X","album","ALBUM ","tItLe","T\xc4G","t\xe4g",
+    "A[","a{","A{","a[","@X","`x","`X","@x","Z]","z}","tag@","TAG`","{}","[]","^_`","~"};   /* the characters just outside 'A'..'Z' / 'a'..'z' */
   int ntags=(int)(sizeof tags/sizeof *tags); int use_explicit=0, has_null=0; long totbytes=0;
   for(int i=0;i<n;i++){
     int kind=(int)rng_below(&r,100); buf_t b; buf_init(&b);
@@ -652,6 +653,9 @@ static void case_c16(const drvargs_t *a,long id){
     vc.user_comments=calloc(n+1,sizeof(char*)); vc.comment_lengths=calloc(n+1,sizeof(int)); vc.comments=n;
     for(int i=0;i<n;i++){ if(cm[i].isnull){ vc.user_comments[i]=NULL; vc.comment_lengths[i]=0; } else { vc.user_comments[i]=malloc(cm[i].len+1); memcpy(vc.user_comments[i],cm[i].p,cm[i].len+1); vc.comment_lengths[i]=cm[i].len; } }
   }
+  /* the vendor field of the structure handed to the writers is not theirs to copy: the packet carries the library's own string */
+  int foreign_vendor= rng_chance(&r,0.3);
+  if(foreign_vendor){ const char *fv="Somebody else's encoder 0.1"; vc.vendor=malloc(strlen(fv)+1); strcpy(vc.vendor,fv); }
   /* two ways of producing the comment header */
   int way=(int)rng_below(&r,2); ogg_packet h[3]; memset(h,0,sizeof h);
   vorbis_info vi; vorbis_dsp_state vd; int enc_live=0;
@@ -703,6 +707,10 @@ static void case_c16(const drvargs_t *a,long id){
       if(n>=0 && dc.user_comments && dc.user_comments[dc.comments]!=NULL) res_viol("C16","list-not-null-terminated","n=%d",n);
       if(!dc.vendor || vlen<0 || (long)strlen(dc.vendor)!=vlen || memcmp(dc.vendor,vend,vlen)) res_viol("C16","vendor-differs","vendor read back '%s' vs %ld bytes in packet",dc.vendor?dc.vendor:"(null)",vlen);
       if(vlen<=0) res_viol("C16","vendor-empty","%ld",vlen);
+      { /* the library's vendor string, as written for a freshly initialised comment structure */
+        static char libvendor[200]; static int have=0;
+        if(!have){ vorbis_comment fc; ogg_packet fp; vorbis_comment_init(&fc); if(vorbis_commentheader_out(&fc,&fp)==0){ long l=fp.packet[7]|(fp.packet[8]<<8)|(fp.packet[9]<<16)|((long)fp.packet[10]<<24); if(l>0&&l<199){ memcpy(libvendor,fp.packet+11,l); libvendor[l]=0; have=1; } free(fp.packet); } vorbis_comment_clear(&fc); }
+        if(have && dc.vendor && strcmp(dc.vendor,libvendor)) res_viol("C16","vendor-not-the-librarys","read back '%s', the library writes '%s' (source structure carried %s vendor)",dc.vendor,libvendor,foreign_vendor?"a foreign":"no"); }
       /* queries against the model, on the read-back structure (and on the source when it has no NULL entries) */
       int nq=a->thorough?80:50; long qmatch=0;
       for(int qi=0;qi<nq && same;qi++){
@@ -737,7 +745,7 @@ done:
   res_sample("%d comments, %ld bytes, explicit=%d null=%d writer=%s",n,totbytes,use_explicit,has_null,way?"commentheader_out":"headerout");
   if(enc_live) vorbis_dsp_clear(&vd);
   vorbis_info_clear(&vi);
-  if(use_explicit){ for(int i=0;i<n;i++) free(vc.user_comments[i]); free(vc.user_comments); free(vc.comment_lengths); memset(&vc,0,sizeof vc); }
+  if(use_explicit){ for(int i=0;i<n;i++) free(vc.user_comments[i]); free(vc.user_comments); free(vc.comment_lengths); free(vc.vendor); memset(&vc,0,sizeof vc); }
   else vorbis_comment_clear(&vc);
   for(int i=0;i<n;i++) free(cm[i].p); free(cm);
   res_end();
